@@ -23,7 +23,7 @@ RULE = (
     "(or none), 20 trials, same binomial decision: every listed combination must actually be checked."
 )
 
-FAMILIES = ["elementwise", "matmul", "broadcast", "complex", "container", "scalar", "dict_complex", "skew"]
+FAMILIES = ["elementwise", "matmul", "broadcast", "complex", "container", "scalar", "dict_complex", "skew", "reduce"]
 DEFECTS = ["none", "factor", "sign", "transpose", "missing_reduction", "missing_conj", "drop_imag", "one_entry", "second_order_only"]
 
 
@@ -101,6 +101,34 @@ def build(family, shape, defect, eps, where, vseed, rereg=False):
         cosj = lambda x: cos_bad(x) if dj == "second_order_only" else anp.cos(x)
         defvjp(f, lambda ans, x: lambda g: apply_defect(dv, g * cosv(x) * cc))
         defjvp(f, lambda g, ans, x: apply_defect(dj, g * cosj(x) * cc))
+        return f, x0
+    if family == "reduce":
+        # a reduction (over everything, or over the leading axis): the forward rule must reduce its tangent like the function reduces its
+        # argument - a rule that hands back the UNREDUCED tangent has the wrong shape, which only a checker that compares spaces notices
+        m, n = 3, max(2, shape[-1] if shape else 2)
+        full = bool(vseed % 2)
+        (W, x0), _ = values.generic(vseed, [(m, n), (m, n)], 0.4, 1.6)
+        red = (lambda a: onp.sum(a)) if full else (lambda a: onp.sum(a, axis=0))
+        ared = (lambda a: anp.sum(a)) if full else (lambda a: anp.sum(a, axis=0))
+
+        @primitive
+        def f(X):
+            return red(onp.sin(X) * W)
+
+        def vjp(ans, X):
+            def r(g):
+                if dv == "missing_reduction":
+                    return (g * anp.cos(X) * W)[0] if not full else g * anp.cos(X[0]) * W[0]  # cotangent not spread over the reduced axis
+                return apply_defect(dv, g * anp.cos(X) * W)
+            return r
+
+        def jvp(g, ans, X):
+            if dj == "missing_reduction":
+                return g * anp.cos(X) * W  # the tangent is not reduced
+            return apply_defect(dj, ared(g * anp.cos(X) * W))
+
+        defvjp(f, vjp)
+        defjvp(f, jvp)
         return f, x0
     if family == "skew":
         # a linear map with an antisymmetric matrix on vectors (input and output live in the SAME space): a transposed Jacobian or a flipped
@@ -264,7 +292,9 @@ def applicable(family, defect, where, order):
     if family == "skew":
         return defect in ("factor", "sign", "one_entry")
     if defect == "missing_reduction":
-        return family == "broadcast"
+        return family in ("broadcast", "reduce")
+    if family == "reduce":
+        return defect in ("factor", "sign", "one_entry")
     if defect in ("missing_conj", "drop_imag"):
         return family in ("complex", "dict_complex")
     if defect == "second_order_only":
@@ -287,7 +317,7 @@ def cell_body(trials, c):
     eps = c.choice([3e-3, 1e-2, 1e-1, -1e-2])
     modes_req = c.choice(["default", "rev", "fwd"])
     shape = c.choice([(), (3,), (3, 2), (4, 4)]) if family not in ("matmul", "skew") else c.choice([(2,), (3,), (4,)])
-    if family == "broadcast":
+    if family in ("broadcast", "reduce"):
         shape = c.choice([(2,), (4,)])
     if not applicable(family, defect, where, order):
         defect = "none"
